@@ -13,6 +13,14 @@ Inductive verdict :=
 | Fail (kind : string) (info : list Z)
 | Bad (msg : string).
 
+(* constructor-free view for the OCaml driver *)
+Definition verdict_parts (v : verdict) : Z * (string * list Z) :=
+  match v with
+  | Ok info => (0, (EmptyString, info))
+  | Fail kind info => (1, (kind, info))
+  | Bad msg => (2, (msg, []))
+  end.
+
 Fixpoint omap {A B} (f : A -> option B) (l : list A) : option (list B) :=
   match l with
   | [] => Some []
